@@ -123,6 +123,7 @@ type conn struct {
 	id     int64
 	cl     *e2e.Client
 	closed bool
+	kept   bool   // the server answered on after a message it cannot decode
 	slot   int64  // the op's numeric-id slot
 	abs    uint32 // the session id the front was made to allocate
 }
@@ -148,7 +149,7 @@ func unwrap(o hx.T) hx.T {
 func Wrap(ops []hx.T) []hx.T {
 	out := make([]hx.T, len(ops))
 	for i, o := range ops {
-		if o.Name == "HBurst" || o.Name == "H" {
+		if o.Name == "HBurst" || o.Name == "H" || o.Name == "HBadMsg" || o.Name == "HGone" {
 			out[i] = o
 		} else {
 			out[i] = hx.C("H", o)
@@ -364,6 +365,61 @@ func Exec(n *e2e.Node, ops []hx.T) (obs any, nontrivial bool, xtags []string, er
 				return nil, false, nil, e
 			}
 			c.closed = true
+		case "HBadMsg":
+			// a well-framed packet with an undecodable message: the server must end the connection
+			c := conns[o.Int(0)]
+			if c == nil || c.closed {
+				continue
+			}
+			if c.cl.NotReady {
+				// in the handshake state the server ignores data packets altogether
+				if e := c.cl.BadMessage(hx.U64(o.Args[1]), o.Int(2)); e != nil {
+					return nil, false, nil, e
+				}
+				continue
+			}
+			if e := n.Drain(open()); e != nil {
+				return nil, false, nil, e
+			}
+			if e := c.cl.BadMessage(hx.U64(o.Args[1]), o.Int(2)); e != nil {
+				return nil, false, nil, e
+			}
+			// either the connection ends or the sentinel behind the bad message is answered
+			if e := n.Sentinel(c.cl); e != nil {
+				return nil, false, nil, e
+			}
+			if c.cl.Closed() || c.cl.WaitClosed(20*time.Millisecond) {
+				if e := n.CloseAndWait(c.cl); e != nil {
+					return nil, false, nil, e
+				}
+				c.closed = true
+			} else {
+				c.kept = true // the server kept a connection it has to end: reported as an impossible response
+			}
+		case "HGone":
+			// notifications, then the client goes away without waiting, while the front-ends are busy
+			c := conns[o.Int(0)]
+			if c == nil || c.closed {
+				continue
+			}
+			if e := n.Drain(open()); e != nil {
+				return nil, false, nil, e
+			}
+			if c.cl.NetId == 0 {
+				c.cl.NetId = c.abs
+			}
+			n.BusyFront(time.Duration(o.Int(1)) * time.Millisecond)
+			for _, x := range o.List(2) {
+				pr := x.(hx.Pair)
+				rt, pl := routeAndPayload(hx.AsTerm(pr.A), pr.B.(int64), proto)
+				if e := c.cl.Notify(rt, pl); e != nil {
+					return nil, false, nil, e
+				}
+			}
+			if e := n.CloseAndWait(c.cl); e != nil {
+				return nil, false, nil, e
+			}
+			c.closed = true
 		default:
 			return nil, false, nil, fmt.Errorf("c02: unknown op %s", o.Name)
 		}
@@ -423,6 +479,10 @@ func Exec(n *e2e.Node, ops []hx.T) (obs any, nontrivial bool, xtags []string, er
 		for _, ev := range keep {
 			rs = append(rs, hx.C("Resp", ev.Mid, ev.Err, payloadClass(ev, proto)))
 			nontrivial = true
+		}
+		if conns[id].kept {
+			// (no model ever answers under request id 0: C02_never_id_zero)
+			rs = append(rs, hx.C("Resp", uint64(0), true, "PNone"))
 		}
 		perConn = append(perConn, hx.Pair{A: id, B: rs})
 	}
